@@ -588,6 +588,18 @@ func (en *SpecEnv) evalCall(c *ast.CallExpr) Val {
 		return mathInt(v.S)
 	case "off":
 		return mathInt(en.eval(c.Args[0]).Off)
+	case "at":
+		// at(s, k): the element of s's backing store at absolute position k (off(s) <= k < off(s)+len(s)
+		// is s[k-off(s)]); quantifying over absolute positions keeps index terms free of arithmetic
+		b := en.eval(c.Args[0])
+		if b.K != KSlice {
+			en.fail("at() needs a slice")
+		}
+		k := en.eval(c.Args[1])
+		et := under(b.T).(*types.Slice).Elem()
+		v := en.hs(b).loadElem(et, b.Ref, k.S)
+		v.HS = b.HS
+		return v
 	case "typeis":
 		// typeis(v, pkg.Type) / typeis(v, *pkg.Type)
 		v := en.eval(c.Args[0])
@@ -618,6 +630,9 @@ func (en *SpecEnv) evalCall(c *ast.CallExpr) Val {
 		k := en.eval(c.Args[1])
 		_, ok := en.x.mapLoad(en.hs(m), m.T, m.S, Val{K: kindOfType(mt.Key()), T: mt.Key(), S: k.S})
 		return boolVal(ok)
+	case "ctxdone":
+		// ctxdone(ctx): this path received from ctx.Done()
+		return boolVal(boolStr(en.s.ctxDone[exprString(c.Args[0])]))
 	case "held":
 		return boolVal(boolStr(en.s.held[exprString(c.Args[0])]))
 	}
@@ -661,6 +676,8 @@ func (en *SpecEnv) evalCall(c *ast.CallExpr) Val {
 				args = append(args, q.S, q.Len)
 			case KIface:
 				args = append(args, v.Tag, v.Dat)
+			case KStruct:
+				args = append(args, flatten(v)...)
 			default:
 				args = append(args, v.S)
 			}
